@@ -4,6 +4,8 @@ import (
 	"fmt"
 	"go/constant"
 	"go/token"
+	"go/types"
+	"strings"
 
 	"golang.org/x/tools/go/ssa"
 
@@ -217,4 +219,92 @@ func checkWasmCallClassification(p *core.Prog, r *core.Report, rule string) {
 		}
 	}
 	r.Check(okNoSuccess, rule, "wasmCall/failure-never-succeeds", "after a module panic no success return is reachable", "a nil-error return is reachable after call.Err() != nil", p.Pos(fn.Pos()))
+}
+
+// checkStreamEndClassification (C16.R4, C07.R3): OnStreamTerminated treats io.EOF as "the segment was processed to
+// its end" and then publishes the cache files.  In the functions that call it (tier-1 blocks, tier-2 processRange) a
+// step that failed must therefore never lead to the stream being classified as EOF: from the failure edge of every
+// error-tested call, neither a store of io.EOF nor an OnStreamTerminated(io.EOF) call is reachable.
+func checkStreamEndClassification(p *core.Prog, r *core.Report, rule string) {
+	ost := p.FuncObj(pkgPipe, "Pipeline.OnStreamTerminated")
+	isEOF := func(v ssa.Value) bool {
+		u, ok := v.(*ssa.UnOp)
+		if !ok || u.Op != token.MUL {
+			return false
+		}
+		g, ok := u.X.(*ssa.Global)
+		return ok && g.Name() == "EOF" && g.Pkg != nil && g.Pkg.Pkg.Path() == "io"
+	}
+	classifiesEOF := func(in ssa.Instruction) bool {
+		switch x := in.(type) {
+		case *ssa.Store:
+			return isEOF(x.Val) || isEOFIface(x.Val, isEOF)
+		case ssa.CallInstruction:
+			if core.CalleeOf(in) == ost {
+				a := x.Common().Args
+				return isEOF(a[len(a)-1])
+			}
+		}
+		return false
+	}
+	nFn, nCalls := 0, 0
+	pipeNamed := p.Named(pkgPipe, "Pipeline")
+	for _, fn := range p.RepoFunctions() {
+		if len(core.FindInstrs(fn, core.IsCallTo(ost))) == 0 || fn.Pkg == nil || !strings.HasSuffix(fn.Pkg.Pkg.Path(), "/"+pkgSvc) {
+			continue
+		}
+		nFn++
+		r.Touch(core.FuncName(fn))
+		core.Instrs(fn, func(c ssa.Instruction) {
+			if _, ok := c.(ssa.CallInstruction); !ok {
+				return
+			}
+			// the processing steps: methods of the pipeline (best-effort steps of the request set-up, whose failure
+			// is logged and ignored, are not concerned)
+			cl := core.CalleeOf(c)
+			if cl == nil || cl.Type().(*types.Signature).Recv() == nil || !core.IsNamed(cl.Type().(*types.Signature).Recv().Type(), pipeNamed) {
+				return
+			}
+			edges := errNonNilEdges(fn, c)
+			if len(edges) == 0 {
+				return
+			}
+			nCalls++
+			q := core.PathQuery{Fn: fn}
+			var hit ssa.Instruction
+			for _, e := range edges {
+				tgt := e.From.Succs[e.Idx]
+				if h, reach := q.CanReach(tgt.Instrs[0], classifiesEOF); reach {
+					hit = h
+				}
+				if classifiesEOF(tgt.Instrs[0]) {
+					hit = tgt.Instrs[0]
+				}
+			}
+			name := "?"
+			if cl := core.CalleeOf(c); cl != nil {
+				name = cl.Name()
+			} else if cc := c.(ssa.CallInstruction).Common(); cc.Value != nil {
+				name = cc.Value.Name()
+			}
+			detail := ""
+			if hit != nil {
+				detail = "after the failure the stream end is classified as io.EOF at " + p.Pos(core.InstrPos(hit))
+			}
+			r.Check(hit == nil, rule, fmt.Sprintf("%s/failed-%s-never-EOF", core.FuncName(fn), name), "a failed step is never reported to OnStreamTerminated as a graceful end of stream (io.EOF): the files of a partly processed segment are not published", detail, p.Pos(c.Pos()))
+		})
+	}
+	if nFn < 2 || nCalls < 5 {
+		core.Undecide("stream-end classification: %d callers of OnStreamTerminated, %d error-tested calls (expected >= 2, >= 5)", nFn, nCalls)
+	}
+}
+
+func isEOFIface(v ssa.Value, isEOF func(ssa.Value) bool) bool {
+	switch x := v.(type) {
+	case *ssa.MakeInterface:
+		return isEOF(x.X)
+	case *ssa.ChangeInterface:
+		return isEOF(x.X)
+	}
+	return false
 }
